@@ -526,9 +526,15 @@ func (e *Env) describeThreads() string {
 		}
 		fmt.Fprintf(&sb, "[%s]=%s ", th.Key, st)
 	}
+	mine := ""
+	if st, ok := stacks[e.root]; ok {
+		if i := strings.Index(st, "synctest bubble "); i >= 0 {
+			mine = strings.Fields(st[i:])[0] + " " + strings.Fields(st[i:])[1] + " " + strings.Fields(st[i:])[2]
+		}
+	}
 	fmt.Fprintf(&sb, " t=%v others:", e.Now())
 	for id, st := range stacks {
-		if e.byGoid[id] == nil && strings.Contains(st, "synctest bubble") && id != e.root {
+		if e.byGoid[id] == nil && strings.Contains(st, "synctest bubble") && id != e.root && (mine == "" || strings.Contains(st, mine+" ")) {
 			fmt.Fprintf(&sb, " {%s}", st)
 		}
 	}
